@@ -1236,3 +1236,35 @@ v("c15-locf-names-not-compared-with-all-columns", "C15", SOL, "        locf_tieb
 # rules written after the tenth seeding round
 v("c16-on-parser-dict", "C16", VR, "    return on_a, on_b\n\n\ndef _convert_parallel_lists_to_on_clause", "    pairs_ = dict()\n    for k_, v_ in zip(on_a, on_b):\n        pairs_[k_] = v_\n    return list(pairs_.keys()), list(pairs_.values())\n\n\ndef _convert_parallel_lists_to_on_clause")
 v("c09-project-shortcut-unguarded", "C09", VR, "        return ProjectNode(source=self, parsed_ops=parsed_ops, group_by=group_by)\n", "        if (len(parsed_ops) < 1) and isinstance(self, ProjectNode):\n            return self.select_columns(group_by)\n        return ProjectNode(source=self, parsed_ops=parsed_ops, group_by=group_by)\n")
+
+# rules written after the eleventh seeding round
+v("c20-db-insert-setdefault", "C20", "db_space.py",
+  "        self.db_handle.insert_table(\n            value, table_name=key, allow_overwrite=allow_overwrite\n        )\n        return self.model_table(key, eligible_for_auto_drop=True)\n",
+  "        descr = self.db_handle.insert_table(\n            value, table_name=key, allow_overwrite=allow_overwrite\n        )\n        self.eligable_for_auto_drop_list.add(key)\n        return self.description_map.setdefault(key, descr)\n")
+v("c20-db-insert-store-only-when-new", "C20", "db_space.py",
+  "        return self.model_table(key, eligible_for_auto_drop=True)\n",
+  "        if key in self.description_map.keys():\n            return self.description_map[key]\n        return self.model_table(key, eligible_for_auto_drop=True)\n")
+v("c20-db-insert-direct-store-twin", "C20", "db_space.py",
+  "        self.db_handle.insert_table(\n            value, table_name=key, allow_overwrite=allow_overwrite\n        )\n        return self.model_table(key, eligible_for_auto_drop=True)\n",
+  "        descr = self.db_handle.insert_table(\n            value, table_name=key, allow_overwrite=allow_overwrite\n        )\n        self.eligable_for_auto_drop_list.add(key)\n        self.description_map[key] = descr\n        return descr\n", expect="silent")
+v("c20-model-table-conditional-store", "C20", "db_space.py",
+  "        descr = self.db_handle.describe_table(key)\n        self.description_map[key] = descr\n",
+  "        descr = self.db_handle.describe_table(key)\n        if key not in self.description_map.keys():\n            self.description_map[key] = descr\n")
+v("c24-dunder-copy-removed", "C24", "OrderedSet.py",
+  "    def __copy__(self):\n        return OrderedSet(self.impl.keys())\n\n", "")
+v("c24-dunder-copy-returns-self", "C24", "OrderedSet.py",
+  "    def __copy__(self):\n        return OrderedSet(self.impl.keys())\n", "    def __copy__(self):\n        return self\n")
+v("c24-dunder-copy-delegates-twin", "C24", "OrderedSet.py",
+  "    def __copy__(self):\n        return OrderedSet(self.impl.keys())\n", "    def __copy__(self):\n        return self.copy()\n", expect="silent")
+v("c27-polars-sort-skipped-below-order-rows", "C27", PM,
+  "        if len(op.order_by) > 0:\n            order_cols = list(partition_by)\n",
+  "        presorted = (op.sources[0].node_name == \"OrderRowsNode\") and (op.order_by[: len(op.sources[0].order_columns)] == op.sources[0].order_columns)\n        if (len(op.order_by) > 0) and (not presorted):\n            order_cols = list(partition_by)\n")
+v("c18-polars-sort-skipped-below-order-rows", "C18", PM,
+  "        if len(op.order_by) > 0:\n            order_cols = list(partition_by)\n",
+  "        presorted = (op.sources[0].node_name == \"OrderRowsNode\") and (op.order_by[: len(op.sources[0].order_columns)] == op.sources[0].order_columns)\n        if (len(op.order_by) > 0) and (not presorted):\n            order_cols = list(partition_by)\n")
+v("c27-polars-sort-guard-local-twin", "C27", PM,
+  "        if len(op.order_by) > 0:\n            order_cols = list(partition_by)\n",
+  "        n_order = len(op.order_by)\n        if n_order > 0:\n            order_cols = list(partition_by)\n", expect="silent")
+v("c25-key-zip-names-hashes", "C25", "eval_cache.py",
+  "        dat_map_list=tuple([(k, hash_data_frame(data_map[k])) for k in data_map_keys]),\n",
+  "        dat_map_list=tuple(zip(data_map_keys, sorted(hash_data_frame(d) for d in data_map.values()))),\n")
